@@ -24,13 +24,20 @@ def haar(rng, n: int) -> np.ndarray:
 def pick_unit(rng, boundary_p: float = 0.25) -> float:
     """A value in [0,1], often a boundary value."""
     if rng.random() < boundary_p:
-        return float(rng.choice([0.0, 1.0, TINY, 1 - 1e-9, 0.5]))
+        v = rng.choice([0.0, 1.0, TINY, 1 - 1e-9, 0.5, 1e-5, 1 - 1e-5])
+        if v in (0.0, 1.0) and rng.random() < 0.5:
+            return int(v)                       # Python ints are legal values too
+        return float(v)
     return float(rng.random())
 
 
 def pick_phase(rng) -> float:
     if rng.random() < 0.2:
-        return float(rng.choice([0.0, math.pi, 2 * math.pi, -math.pi / 2, 4 * math.pi, -2 * math.pi, TINY]))
+        v = rng.choice([0.0, math.pi, 2 * math.pi, -math.pi / 2, 4 * math.pi, -2 * math.pi, TINY, 1e6, -123456.789,
+                        3.0, -1.0, 0.0])
+        if float(v).is_integer() and rng.random() < 0.5:
+            return int(v)
+        return float(v)
     return float(rng.uniform(-4 * math.pi, 4 * math.pi))
 
 
@@ -62,7 +69,10 @@ def random_swaps(rng, n: int) -> dict:
     k = int(rng.integers(1, n + 1)) if kind < 0.7 else n
     modes = sorted(rng.choice(n, size=k, replace=False).tolist())
     perm = rng.permutation(modes).tolist()
-    return {int(a): int(b) for a, b in zip(modes, perm)}
+    pairs = list(zip(modes, perm))
+    if rng.random() < 0.6:
+        rng.shuffle(pairs)                      # insertion order of the dictionary must not matter
+    return {int(a): int(b) for a, b in pairs}
 
 
 GATES_1Q = ["H", "X", "Y", "Z", "S", "T", "SX"]
@@ -156,7 +166,9 @@ class Builder:
                 log.append(["barrier", None])
             else:
                 k = int(rng.integers(0, n + 1))          # k = 0: a barrier over no modes is constructible too
-                modes = sorted(rng.choice(n, size=k, replace=False).tolist())
+                modes = rng.choice(n, size=k, replace=False).tolist()
+                if rng.random() < 0.5:
+                    modes = sorted(modes)
                 self.last = ['barrier', modes, self.state(c)]
                 arg = list(modes)
                 c.barrier(arg)
@@ -175,9 +187,17 @@ class Builder:
             m = int(rng.integers(0, n - k + 1))
             seed = int(rng.integers(1 << 30))
             u = haar(np.random.default_rng(seed), k)
+            r_kind = rng.random()
+            if r_kind < 0.12:
+                u = np.eye(k, dtype=int)[np.random.default_rng(seed).permutation(k)]      # integer permutation matrix
+            elif r_kind < 0.24:
+                q, r = np.linalg.qr(np.random.default_rng(seed).normal(size=(k, k)))
+                u = q * np.sign(np.diag(r))                                               # real (float) orthogonal
+            elif r_kind < 0.3:
+                u = np.diag(np.exp(1j * np.random.default_rng(seed).uniform(0, 6.3, size=k)))
             self.last = ['unitary', m, k, seed, self.state(c)]
             arr = np.array(u)
-            un = self.lw.Unitary(arr)
+            un = self.lw.Unitary(arr if rng.random() < 0.8 else arr.tolist() if False else arr)
             if rng.random() < 0.5:
                 arr[...] = 0           # ... and for the array a Unitary was built from
             c.add(un, m)
